@@ -45,7 +45,12 @@ func TestVerifC05(t *testing.T) {
 		}
 	}
 	e.fits = func(k string, v []byte) bool { return keys.VerifyValue([]byte(k), v) }
-	e.runLines(lines, func() { r.Distinct(e.seqText.String()) })
+	// non-trivial: histories in which at least one operation was denied for lack of permission
+	e.runLines(lines, func() {
+		if e.seqDenied > 0 {
+			r.Distinct(e.seqText.String())
+		}
+	})
 }
 
 func c05Generate(r *verifh.Run) []string {
@@ -60,8 +65,9 @@ func c05Generate(r *verifh.Run) []string {
 	prog := func() []string {
 		return []string{
 			"get " + ka, "insert " + ka + " 09", "get " + ka, "insert " + ka + " 05", "opindex", "remove " + ka, "get " + ka,
-			"insert " + ka + " 09", "get " + ka, "rollback 0", "get " + ka, "remove " + ka, "get " + kb, "insert " + kb + " 01",
-			"get " + ke, "insert " + ke + " 01", "remove " + ke, "opindex", "commit",
+			"insert " + ka + " 09", "get " + ka, "rollback 2", "get " + ka, "rollback 1", "get " + ka, "keyops", "rollback 0", "get " + ka,
+			"remove " + ka, "get " + kb, "insert " + kb + " 01", "insert " + ka + " 05", "rollback 1", "get " + ka, "get " + kb,
+			"get " + ke, "insert " + ke + " 01", "remove " + ke, "keyops", "opindex", "commit",
 		}
 	}
 	// exhaustive over the permission byte of the key under test, for each base state; the other
@@ -101,7 +107,11 @@ func c05Generate(r *verifh.Run) []string {
 				sc = append(sc, fmt.Sprintf("%s:%d", k, perm))
 			}
 		}
-		lines = append(lines, fmt.Sprintf("reset U=%s P=%s C=%s F= O=0", strings.Join(ks, ","), strings.Join(p, ","), strings.Join(c, ",")))
+		fl := ""
+		if r.RNG.Chance(15) { // parent storage fails on one key
+			fl = ks[r.RNG.Intn(len(ks))]
+		}
+		lines = append(lines, fmt.Sprintf("reset U=%s P=%s C=%s F=%s O=0", strings.Join(ks, ","), strings.Join(p, ","), strings.Join(c, ","), fl))
 		if len(sc) == 0 {
 			lines = append(lines, "view -")
 		} else {
